@@ -1294,6 +1294,48 @@ pub fn enumerate_c13(_thorough: bool, part: usize, parts: usize, sink: &mut crat
             return;
         }
     }
+    // one single-character transition for every code point and no default: complete and conflict-free
+    if part == parts - 1 {
+        use aws_smt_strings::automata::AutomatonBuilder;
+        use aws_smt_strings::character_sets::CharSet;
+        let mut o = Outcome::default();
+        let res = crate::runner::on_user_stack(|| {
+            catch(|| {
+                let mut b: AutomatonBuilder<u32> = AutomatonBuilder::new(&0);
+                for c in 0..=MAX {
+                    b.add_transition(&0, &CharSet::singleton(c), &(1 + c % 3));
+                }
+                for q in 1..=3u32 {
+                    b.set_default_successor(&q, &q);
+                }
+                b.mark_final(&2);
+                b.build().map(|a| {
+                    let s0 = a.initial_state();
+                    let mut bad: Option<u32> = None;
+                    let mut c = 0u32;
+                    while c <= MAX {
+                        if a.next(a.next(s0, c), 0).is_final() != (1 + c % 3 == 2) {
+                            bad = Some(c);
+                            break;
+                        }
+                        c += if c < 70_000 { 1 } else { 101 };
+                    }
+                    (a.num_states(), bad)
+                })
+            })
+        });
+        match res {
+            Ok(Ok((n, bad))) => {
+                if n != 4 || bad.is_some() {
+                    o.fail("C13/delta-differs-from-spec", format!("one transition per code point: {} states, first wrong successor at {:?}", n, bad.map(|c| format!("{:#x}", c))));
+                }
+            }
+            Ok(Err(e)) => o.fail("C13/rejects-good-spec", format!("a state with one single-character transition for each of the 0x30000 code points (complete, conflict-free, no default) is rejected: {:?}", e)),
+            Err(msg) => o.fail("C13/build-panics", format!("one transition per code point: {}", msg)),
+        }
+        sink.case(&o, true, || "scale specification: one transition per code point".to_string());
+        sink.stats.exhaustive_spaces.push("1 scale specification: a state with a single-character transition for every one of the 196 608 code points".to_string());
+    }
     if part == 0 {
         sink.stats.exhaustive_spaces.push("scale specifications: one state with 5 / 21 / 22 / 40 / 100 single-character transitions in ascending / descending / interleaved call order and 16 shuffles, without and with a conflicting wider label given first / in the middle / last; 70 - 600 states with an initial state whose successors have ids that agree modulo 64 or 256".to_string());
     }
